@@ -320,6 +320,23 @@ impl World {
     /// convenience: honest child with one payment K1->K2 (same first output for siblings: forced
     /// conflict) and a golden ticket on even ids
     pub fn honest_child(&mut self, parent: usize, salt: u64, label: &str) -> Result<usize, String> {
+        self.honest_child_with(parent, salt, label, false)
+    }
+
+    /// `newest`: the payment spends the payer's most recently created output, so that consecutive
+    /// blocks of a branch depend on each other (an output created and spent inside a segment)
+    pub fn honest_child_with(&mut self, parent: usize, salt: u64, label: &str, newest: bool) -> Result<usize, String> {
+        if newest {
+            let ts = self.child_ts(parent, salt);
+            let id = self.blocks[parent].id + 1;
+            let k1 = key(1);
+            let k2 = key(2);
+            if let Some(t) = self.payment_newest(parent, &k1, &k1.public, 1000 + salt, 0, ts) {
+                let _ = k2;
+                let gt = if id % 2 == 0 { Some(key(0)) } else { None };
+                return self.build(parent, ts, gt, vec![t], label);
+            }
+        }
         let ts = self.child_ts(parent, salt);
         let id = self.blocks[parent].id + 1;
         let k1 = key(1);
